@@ -535,7 +535,9 @@ def conc_case(name, rng: random.Random, seed=None):
             elif r < 0.64:
                 lines.append(f"thread {t} remove_range U U" if rng.random() < 0.5 else f"thread {t} remove_range I:{hexs(min(keys))} I:{hexs(max(keys))}")
             elif r < 0.80:
-                lines.append(f"thread {t} get {k}")
+                # a ranged read of an EMPTY blob returns without opening it (sequential model: Store.get_range);
+                # the concurrent model has one read path, so `range` is used only when no content is empty
+                lines.append(f"thread {t} {rng.choice(['get', 'get', 'reader', 'range' if b'' not in contents else 'reader'])} {k}")
             elif r < 0.85:
                 lines.append(f"thread {t} size {k}")
             elif r < 0.90:
@@ -565,6 +567,9 @@ def conc_corpus():
         "conc corpus_rm_put\ncfg kt=bytes n=100\nsetup put 6b31 5858\nthread 1 remove 6b31\nthread 2 put 6b32 5858\nsched 2 2 2 1 1 1 1 1 1 2 2 1 1 1 2 2 2 2 2 2\nend\n",
         "conc corpus_aba\ncfg kt=bytes n=100\nsetup put 6b 5858\nthread 1 get 6b\nthread 2 remove 6b\nthread 2 put 6b 5858\nsched 1 1 1 2 2 2 2 2 2 2 2 2 2 2 1 2 2 2 2 2 2 2 2 2 2 2 2 2 1 1 1\nend\n",
         "conc corpus_ckpt\ncfg kt=bytes n=1\nsetup put 6b31 5858\nthread 1 checkpoint\nthread 2 put 6b32 5959\nthread 3 get 6b31\nseed 5\nend\n",
+        # ranged read and streaming read racing with an overwrite by a longer value
+        "conc corpus_range_grow\ncfg kt=bytes n=100\nsetup put 6b 5858\nthread 1 range 6b\nthread 2 put 6b 595959595959\nsched 1 1 1 2 2 2 2 2 2 2 2 2 2 2 2 1 1 1 1\nend\n",
+        "conc corpus_reader_grow\ncfg kt=bytes n=100\nsetup put 6b 5858\nthread 1 reader 6b\nthread 2 put 6b 595959595959\nsched 1 1 2 2 2 2 2 2 2 2 2 2 2 2 1 1 1 1 1\nend\n",
     ]
 
 
